@@ -153,12 +153,27 @@ pub fn report_violation(run: u64, original_ops: usize, sc: &Scenario, v: &Violat
     path.display().to_string()
 }
 
-pub fn hang_exit(run: u64) -> ! {
+pub fn hang_exit(run: u64, sc: Option<&Scenario>) -> ! {
     let c = ctx();
     let st = stage();
     let dir = c.verif.join("replays");
     let _ = std::fs::create_dir_all(&dir);
     let path = dir.join(format!("{}-{}-{}-{}-hang.json", c.prop, st, c.seed, run));
+    if let Some(sc) = sc {
+        let v = Violation {
+            property: c.prop.clone(),
+            class: format!("{}/hang", c.prop),
+            step: 0,
+            detail: "a call did not return: the run made no progress within the hang limit".into(),
+            expected: vec!["every call returns".into()],
+            got: vec!["no progress for 60 s".into()],
+            oracle: "watchdog over the per-run heartbeat".into(),
+        };
+        let rf = ReplayFile { property: c.prop.clone(), class: v.class.clone(), seed: c.seed, run, minimised: false, original_ops: sc.ops.len(), scenario: sc.clone(), violation: v, replay_cmd: format!("/verif/check replay {}", path.display()) };
+        let _ = std::fs::write(&path, serde_json::to_string_pretty(&rf).unwrap());
+        println!("VIOLATION property={} replay={}", c.prop, path.display());
+        std::process::exit(1);
+    }
     let body = json!({"property": c.prop, "class": format!("{}/hang", c.prop), "seed": c.seed, "run": run, "stage": st,
         "minimised": false, "note": "a run made no progress within the hang limit; re-run the batch with the same VERIF_SEED to reproduce",
         "replay_cmd": format!("VERIF_SEED={} /verif/check {} {}", c.seed, c.prop, c.tier)});
